@@ -9,10 +9,12 @@ import (
 	"time"
 
 	"github.com/sdcio/cache/proto/cachepb"
+	"github.com/sdcio/data-server/pkg/cache"
 	"github.com/sdcio/data-server/pkg/config"
 	"github.com/sdcio/data-server/pkg/datastore"
 	"github.com/sdcio/data-server/pkg/server"
 	sdcpb "github.com/sdcio/sdc-protos/sdcpb"
+	"google.golang.org/protobuf/proto"
 
 	"verifharness/internal/core"
 	"verifharness/internal/fixture"
@@ -67,6 +69,8 @@ var c14PathPool = []string{
 	// key leaves (alone: a JSON answer has to complete the entry with the other keys)
 	"/duo[k1=a][k2=b]/k2", "/duo[k1=a][k2=b]/k1", "/duo[k2=b]/k2", "/peer[name=n1][zone=z1]/zone", "/peer[name=n1][zone=z1]/name", "/tri[a=k][b=1][c=x]/c", "/tri[a=k][b=1][c=x]/b",
 	"/if[name=e1]/name", "/if[name=e1]/unit[id=1]/id",
+	// state leaves next to configuration, and entries whose key values contain characters a store may treat specially
+	"/if[name=e1]/oper-state", "/if[name=e1.1]", "/if[name=e1.1]/oper-state", "/if[name=e1.1]/descr", "/if[name=e(1)]", "/if[name=e1+]/descr", "/if[name=e1?]",
 }
 
 // separates: requests whose filter must tell prefix related siblings apart
@@ -176,7 +180,37 @@ func (c *c14) RunCase(w *core.Worker, idx int, seed uint64, res *core.CaseResult
 		}
 	}
 	ctx := context.Background()
+	// what a sync with validation wrote besides: state leaves, and list entries whose names contain '.', '(', '+', '?'
+	{
+		mk := func(path, v string) *cache.Update {
+			b, _ := proto.Marshal(model.MkTv(v))
+			return cache.NewUpdate(strings.Split(model.CachePath(model.Parse(path)), ","), b, 0, "", 0)
+		}
+		var cfgU, stU []*cache.Update
+		for _, n := range []string{"e1.1", "e1x1", "e(1)", "e1+", "e1?", "e1"} {
+			if rng.Chance(2, 3) {
+				stU = append(stU, mk("/if[name="+n+"]/oper-state", []string{"up", "down"}[rng.Intn(2)]))
+			}
+			if n != "e1" && rng.Chance(2, 3) {
+				cfgU = append(cfgU, mk("/if[name="+n+"]/name", n), mk("/if[name="+n+"]/descr", "d-"+n))
+			}
+		}
+		if rng.Bool() {
+			stU = append(stU, mk("/stats/rx", "10"))
+		}
+		if len(cfgU) > 0 {
+			c.h.env.Cache.Modify(ctx, run.ds.Name, &cache.Opts{Store: cachepb.Store_CONFIG}, nil, cfgU)
+		}
+		if len(stU) > 0 {
+			c.h.env.Cache.Modify(ctx, run.ds.Name, &cache.Opts{Store: cachepb.Store_STATE}, nil, stU)
+		}
+	}
 	srv := server.NewVerif(ctx, &config.Config{}, c.h.env.Schema, c.h.env.Cache, map[string]*datastore.Datastore{run.ds.Name: run.ds.Datastore})
+	stDump, _ := fixture.DumpStore(ctx, c.h.env.Cache, run.ds.Name, cachepb.Store_STATE)
+	stateLeaves := map[string]string{}
+	for k, v := range stDump {
+		stateLeaves[cacheToCanon(k)] = v
+	}
 	cfgDump, _ := fixture.DumpStore(ctx, c.h.env.Cache, run.ds.Name, cachepb.Store_CONFIG)
 	running := map[string]string{}
 	for k, v := range cfgDump {
@@ -313,11 +347,22 @@ func (c *c14) RunCase(w *core.Worker, idx int, seed uint64, res *core.CaseResult
 			res.Count("requests_intended", 1)
 			continue
 		}
-		want := filterRef(running, paths)
+		// what kind of data: configuration (mostly), state, or both
+		dt := []sdcpb.DataType{sdcpb.DataType_CONFIG, sdcpb.DataType_CONFIG, sdcpb.DataType_ALL, sdcpb.DataType_STATE}[rng.Intn(4)]
+		want := map[string]string{}
+		if dt != sdcpb.DataType_STATE {
+			want = filterRef(running, paths)
+		}
+		if dt != sdcpb.DataType_CONFIG {
+			for k, v := range filterRef(stateLeaves, paths) {
+				want[k] = v
+			}
+		}
+		res.Count("requests_main_"+dt.String(), 1)
 		var first map[string]string
 		for _, enc := range encs {
-			req := &sdcpb.GetDataRequest{Name: run.ds.Name, Path: pbs, DataType: sdcpb.DataType_CONFIG, Encoding: enc, Datastore: &sdcpb.DataStore{Type: sdcpb.Type_MAIN}}
-			what := fmt.Sprintf("GetData MAIN enc=%s paths=%v", enc, ps)
+			req := &sdcpb.GetDataRequest{Name: run.ds.Name, Path: pbs, DataType: dt, Encoding: enc, Datastore: &sdcpb.DataStore{Type: sdcpb.Type_MAIN}}
+			what := fmt.Sprintf("GetData MAIN %s enc=%s paths=%v", dt, enc, ps)
 			got := c.get(srv, req)
 			compare(what, got, want)
 			if first == nil {
